@@ -1,7 +1,7 @@
 #!/bin/bash
 # usage: ingest_seed.sh <property> <variant> [srcdir]   - verifies a sub-agent's seeded change in a scratch worktree of /repo HEAD
 # (demo exits 0 pristine / 1 patched, repository suite unchanged) and, only then, copies it to /verif/seeded/<property>_<variant>/
-ID=$1; V=$2; SRC=${3:-/tmp/seedwork4/out/$ID}
+ID=$1; V=$2; SRC=${3:-/tmp/seedwork5/out/$ID}
 W=/tmp/seedcheck.$$
 git -C /repo worktree add -q --detach $W HEAD || exit 3
 trap 'git -C /repo worktree remove --force $W' EXIT
